@@ -313,6 +313,10 @@ def api_render(desc, proj: Path, out: Path):
         )
         tl = TemplateLoader(desc["solver"][0], desc["solver"][2], desc["solver"][1])
         tl.render(desc["name"], net, path=out)
+        if desc.get("_patch"):
+            from naunet.patches import EnzoPatch
+
+            EnzoPatch(desc["solver"][1]).render(net, path=Path(out) / "enzo")
     finally:
         os.chdir(old)
 
@@ -394,6 +398,26 @@ def run_cfg(arg):
         if not cli_ok:
             viols.append((f"C20:api-renders-cli-raises:{opt}:{excname or 'none'}", f"init {why}: the equivalent API network renders but the CLI path raises {exc!r}", case))
             return 1, viols, "api-only"
+        if why in ("base", "single:solver-triple"):
+            # the patch branch of the render command reads the same configuration (device!)
+            def cli_patch():
+                st2, o2, err2, exc2 = run_command("render", "--patch=enzo --force", proj, timeout=240)
+                return st2, err2[:300], (f"{type(exc2).__name__}: {exc2}"[:300] if exc2 is not None else None)
+
+            st2, err2, exc2 = fork_call(cli_patch)
+            apiout2 = work / "api2"
+            apiout2.mkdir()
+            proj3 = work / "apiproj2"
+            write_inputs(proj3)
+            kind2, val2 = run_api((dict(req, _patch=True), str(proj3), str(apiout2)))
+            if exc2 is None and kind2 == "ok":
+                a_files = {str(q.relative_to(proj / "enzo")): hashlib.sha256(q.read_bytes()).hexdigest()[:16] for q in sorted((proj / "enzo").rglob("*")) if q.is_file()} if (proj / "enzo").exists() else {}
+                b_files = {str(q.relative_to(apiout2 / "enzo")): hashlib.sha256(q.read_bytes()).hexdigest()[:16] for q in sorted((apiout2 / "enzo").rglob("*")) if q.is_file()}
+                if a_files != b_files:
+                    diff = sorted(k for k in set(a_files) | set(b_files) if a_files.get(k) != b_files.get(k))
+                    viols.append((f"C20:patch-differs:{cfg['device']}/{cfg['method']}", f"init {why}: `naunet render --patch enzo` and the API patch for device {cfg['device']} differ in {diff[:5]}", case))
+            elif (exc2 is None) != (kind2 == "ok"):
+                viols.append((f"C20:patch-one-side-raises:{cfg['device']}/{cfg['method']}", f"init {why}: render --patch enzo: CLI {exc2!r}, API {val2 if kind2 != 'ok' else 'ok'}", case))
         cli = tree_digest(proj)
         if cli != val:
             diff = sorted(k for k in set(cli) | set(val) if cli.get(k) != val.get(k))
